@@ -38,8 +38,9 @@ def norm(m, e=0):
 
 
 class Gen:
-    def __init__(self, rng, variables=True, max_depth=5, share_p=0.15, heads=None):
+    def __init__(self, rng, variables=True, max_depth=5, share_p=0.15, heads=None, distinct_init=False):
         self.rng = rng
+        self.distinct_init = distinct_init
         self.variables = variables
         self.max_depth = max_depth
         self.share_p = share_p
@@ -76,7 +77,13 @@ class Gen:
         if name not in self.betas:
             fixed = self.rng.random() < 0.3
             v = dy(self.rng, positive=True) if positive else dy(self.rng)
+            if not positive and self.rng.random() < 0.1:
+                v = [0, 0]          # a parameter whose value is exactly 0
             self.betas[name] = {'value': val(v), 'fixed': fixed, 'positive': val(v) > 0, 'lb': None, 'ub': None}
+            if self.distinct_init and not fixed:
+                # engine path: the Beta object is created with ANOTHER initial value; the evaluation value
+                # is supplied through the name -> value dictionary
+                self.betas[name]['init'] = val(v) + self.rng.choice([1.0, -0.5, 2.25])
         b = self.betas[name]
         if positive and not b['positive']:
             return None
@@ -304,7 +311,7 @@ class Gen:
 
 
 def gen_case(rng, variables=True, max_depth=5, n_rows=3, exclude=()):
-    g = Gen(rng, variables=variables, max_depth=max_depth, heads={'exclude': list(exclude)})
+    g = Gen(rng, variables=variables, max_depth=max_depth, heads={'exclude': list(exclude)}, distinct_init=variables)
     tree = g.real(max_depth)
     # make sure the root is not a bare leaf too often
     if not tree['k'] and rng.random() < 0.8:
